@@ -91,6 +91,16 @@ def observe_case(a, th, tracked, sample_lists, cmap, tmap, tscale, rng):
     same = all(o2[f] == trees[idx][f] for f in ("index", "left", "right", "parent", "edge", "ns", "nt", "num_edges", "sites")) \
         and sorted(o2["roots"]) == sorted(trees[idx]["roots"])
     seq["at_index_same"] = 1 if same else 0
+    # the Tree object handed out by the iteration, now past the end, is positioned again with first() / last():
+    # it must report the same tree as the iteration did (content validated by TLC through trees[0] / trees[-1])
+    reuse = 1
+    for op, want in (("first", trees[0]), ("last", trees[-1]), ("first", trees[0])):
+        getattr(tree, op)()
+        o3 = observe_tree(tree, cmap)
+        if not (all(o3[f] == want[f] for f in ("index", "left", "right", "parent", "edge", "ns", "nt", "num_edges", "sites"))
+                and sorted(o3["roots"]) == sorted(want["roots"])):
+            reuse = 0
+    seq["reuse_same"] = reuse
     return dict(ts=a2, th=th, tracked=list(tracked), trees=trees, seq=seq, maps=[cmap.kind, tmap.kind, tmap.offset])
 
 
@@ -176,6 +186,8 @@ def run():
         f = list(verdicts[c["id"]])
         if not c["seq"]["at_index_same"]:
             f.append("at_index_differs_from_iteration")
+        if not c["seq"]["reuse_same"]:
+            f.append("repositioned_tree_differs_from_iteration")
         if f:
             chk.violation("trace rejected by Trace_Trees: failing clauses %s %s" % (f, st["eval_errors"].get(c["id"], "")[-600:]), c)
         else:
